@@ -8,7 +8,7 @@ import sys
 sys.path.insert(0, os.path.dirname(os.path.dirname(os.path.abspath(__file__))))
 from rac.common import Rac, PRELUDE
 
-KEYS = ["a", "b", "a']['b", "a'].b", "a\"]", "a.b", "d['a']", "é", "1", 1, -1, 1.5, (1,), ("a", 1), "a b", "", "'", "[", "x.y']"]
+KEYS = ["a", "b", "a']['b", "a'].b", "a\"]", "a.b", "d['a']", "é", "1", 1, -1, -2, 1.5, (1,), ("a", 1), "a b", "", "'", "[", "x.y']"]
 ATTRS = ["a", "b", "é", "ab", "a1"]
 
 
